@@ -569,7 +569,7 @@ func init() {
 		},
 		Covers: []string{"C20.paths-checked", "C20.some-path-observed", "C20.handler-returned", "C20.unsubscribed-event", "C20.subscribed-event", "C20.loop-checked", "C20.loop.subscribed-event"},
 		Bounds: map[string]interface{}{
-			"quick":    "selection: up to 2 include and 2 exclude patterns over 3 candidate paths with the whole pattern x path match relation symbolic (512 relations per shape, decided per path by the solver); events: every subset of the five event names subscribed (none = all), 1..2 events of symbolic type handled by the real handler with the real TaskRunner (executor stubbed); the real Watcher.Run (registration of the selected paths, first run, polling loop, handler goroutines, Close) in thread mode with events of symbolic type delivered through the fsnotify channel while earlier runs may still be in flight (commands that take time): 1 event with every subscribed set, 2 events with the subscribed sets {none listed = all}, {write}, {create, chmod}, {all but write}; preemption bound 0 (threads switch where they block, sleep or a command is running); besides the per-event obligations, the state of the Watcher object (fields, fill level of the channels and maps they refer to) after the events were served equals its state before them - the inductive step behind \"keeps serving later events\"",
+			"quick":    "selection: up to 2 include and 2 exclude patterns over 3 candidate paths with the whole pattern x path match relation symbolic (512 relations per shape, decided per path by the solver); events: every subset of the five event names subscribed (none = all), 1..2 events of symbolic type handled by the real handler with the real TaskRunner (executor stubbed); the real Watcher.Run (registration of the selected paths, first run, polling loop, handler goroutines, Close) in thread mode with events of symbolic type delivered through the fsnotify channel: 1 event with every subscribed set, 2 events with the subscribed sets {none listed = all}, {write}, {create, chmod}, {all but write}; preemption bound 0 (threads switch where they block or sleep; a command then runs through without a switch - commands still in flight when the next event arrives are explored only by the thorough tier's bound-1 jobs); besides the per-event obligations, the state of the Watcher object (fields, fill level of the channels and maps they refer to) after the events were served equals its state before them - the inductive step behind \"keeps serving later events\"",
 			"thorough": "3 events for the handler; the loop with 2 events and every subscribed set, and with 1 event and preemption bound 1 for two subscribed sets",
 		},
 		Outside:     []string{"doublestar's pattern semantics and the file-system walk (Glob / PathMatch are replaced by the symbolic relation)", "fsnotify / inotify delivery, combined Op bit-masks", "more than 2 events in the loop harness; schedules of the loop with more than one preemption"},
